@@ -109,7 +109,8 @@ class C12(F.Spec):
         # input 0 is the configuration button; input 1 is a plain button
         f0 = rng.choice([0x03, 0x03 | 0x04, 0x03 | 0x40, 0x03 | 0x20, 0x03 | 0x20 | 0x40 | 0x04])
         # (inputs are released at power-on: pull-up level 1)
-        ops = ["board " + board, "inflags 0 %d" % f0, "inlevel 9 1", "inlevel 10 1", "init", "adv 1000"]
+        typ0 = rng.choice([2, 2, 2, 4])          # the configuration button is monostable or bistable
+        ops = ["board " + board, "inflags 0 %d" % f0, "intype 0 %d" % typ0, "inlevel 9 1", "inlevel 10 1", "init", "inlog 1", "adv 1000"]
         pin = 9 if rng.random() < .7 else 10
         g = rng.choice(["hold", "hold", "toggles"])
         if g == "hold":
@@ -129,9 +130,34 @@ class C12(F.Spec):
             total = sum(int(o.split()[1]) for o in ops if o.startswith("adv "))
             ops = ["boot %d" % (4294967296 - rng.randint(1000, max(total, 1001)) * 1000 - rng.randint(0, 999))] + ops
         return F.Case("btn%d-%s" % (i, board), ops, {"tags": ["kind:buttons", "gesture:" + g], "board": board, "kind": "buttons",
-                                                     "pin": pin, "f0": f0, "gesture": meta})
+                                                     "pin": pin, "f0": f0, "typ0": typ0, "gesture": meta})
+
+    def derive_buttons(self, case, raw):
+        """the configuration button (input 0): every recognised state change goes to the model of the legacy handling, which
+        generates the 20 ms callbacks itself; it must start configuration mode in exactly the same interval"""
+        f0 = case.meta.get("f0")
+        if f0 is None:
+            f0 = next((int(o.split()[2]) for o in case.ops if o.startswith("inflags 0 ")), 3)
+        typ0 = case.meta.get("typ0") or next((int(o.split()[2]) for o in case.ops if o.startswith("intype 0 ")), 2)
+        cfgbtn = bool(f0 & 0x02)
+        on_hold = cfgbtn and typ0 == 2 and (not f0 & 0x20 or bool(f0 & 0x40))
+        on_toggle = cfgbtn and (typ0 in (4, 8) or bool(f0 & 0x20))
+        ops, exp = ["cbcfg %d %d %d" % (typ0, on_hold, on_toggle)], [[]]
+        for op, g in zip(case.ops, raw):
+            tnow = [x for x in g if x.startswith("TNOW ")]
+            if not tnow:
+                continue
+            evs = ["%s@%s" % (x.split()[2], x.split()[3]) for x in g if x.startswith("INCHG 0 ")]
+            ops.append("cbspan %s %s" % (tnow[-1].split()[1], " ".join(evs)))
+            ent = "CHG CfgMode 0 1" in g
+            exp.append(["CB cfgmode"] if ent else [])
+            if ent:
+                break
+        return "\n".join(ops) + "\n", exp
 
     def derive_model(self, case, raw):
+        if case.meta.get("kind") == "buttons" or (case.meta.get("kind") is None and any(o.startswith("inlog ") for o in case.ops)):
+            return self.derive_buttons(case, raw)
         ops, exp = [], []
         board = case.meta.get("board") or next((o.split()[1] for o in case.ops if o.startswith("board ")), "relay2")
         cfgmode = False
@@ -202,6 +228,7 @@ class C12(F.Spec):
                 entered = True
         if kind == "buttons":
             # derive the gestures from the ops: holds (ms with the pin low) and press counts per pin
+            typ0 = case.meta.get("typ0") or next((int(o.split()[2]) for o in case.ops if o.startswith("intype 0 ")), 2)
             holds, presses, down_at, now = {}, {}, {}, 0
             for op in case.ops:
                 t = op.split()
@@ -214,9 +241,11 @@ class C12(F.Spec):
                         presses[pin] = presses.get(pin, 0) + 1
                     elif pin in down_at:
                         holds[pin] = max(holds.get(pin, 0), now - down_at.pop(pin))
+                        if pin == 9 and typ0 != 2:
+                            presses[pin] = presses.get(pin, 0) + 1        # a bistable button counts every change
             for pin, t0 in down_at.items():
                 holds[pin] = max(holds.get(pin, 0), now - t0)
-            cfg_hold = holds.get(9, 0) >= 4900           # input 0 (pin 9) is the configuration button
+            cfg_hold = holds.get(9, 0) >= 4900 and typ0 == 2          # input 0 (pin 9) is the configuration button
             cfg_toggles = presses.get(9, 0) >= 10
             if entered and not cfg_hold and not cfg_toggles:
                 fs.append(F.Finding("cfgmode-without-gesture", "cfg mode entered; longest hold on the cfg button %d ms, %d presses; "
